@@ -112,6 +112,9 @@ func buildVal(typ string, args [][]byte) ds.Value {
 	panic("bad type " + typ)
 }
 
+// the storage entries of the last `ev` lines (decoded again after each later value: see there)
+var evPrev [][]byte
+
 func codecOp(toks []string) (out string) {
 	defer func() {
 		if r := recover(); r != nil {
@@ -178,6 +181,31 @@ func codecOp(toks []string) (out string) {
 			}
 			if after := compact(dumpVal(v2)); after != dec {
 				dec = dec + " ALIASED(" + after + ")"
+			}
+			// ... nor on what is decoded afterwards (a decoder that parks its scratch buffer in a pool and hands out
+			// references into it): decode the entries of the previous lines again, and a same-sized entry of other bytes
+			later := append([][]byte{}, evPrev...)
+			other := append([]byte(nil), entry...)
+			for i := 1; i < len(other); i++ {
+				if other[i] >= 'a' && other[i] < 'z' {
+					other[i]++
+				}
+			}
+			later = append(later, other, append([]byte(nil), entry...))
+			for _, e := range later {
+				func() {
+					defer func() { _ = recover() }()
+					if v3, err := storage.VerifDecodeEntry(append([]byte(nil), e...)); err == nil {
+						_ = dumpVal(v3)
+					}
+				}()
+			}
+			if after := compact(dumpVal(v2)); after != dec && !strings.Contains(dec, "ALIASED") {
+				dec = dec + " ALIASED-BY-LATER-DECODE(" + after + ")"
+			}
+			evPrev = append(evPrev, append([]byte(nil), entry...))
+			if len(evPrev) > 3 {
+				evPrev = evPrev[1:]
 			}
 		}()
 		return fmt.Sprintf("orig=%s enc=%s dec=%s", orig, encShown, dec)
